@@ -85,7 +85,30 @@ def wrap_chain(prog, e, at, depth=0):
         return []
     if isinstance(e, ast.Attribute):
         en = prog.ext_name(e, at)
-        return [(en, {}, None)] if en in WRAP_EXT else []
+        if en in WRAP_EXT:
+            return [(en, {}, None)]
+        if e.attr in ("fill", "wrap"):
+            # a method of a wrapper object: `TextWrapper(width=.., ..).fill`, also through a local / module-level name; options set
+            # afterwards as attributes (`w.break_on_hyphens = False`) count like constructor keywords
+            obj, scope, nm = e.value, None, None
+            if isinstance(obj, ast.Name):
+                nm = obj.id
+                b = prog.lookup(obj.id, at)
+                if b[0] == "value":
+                    obj, scope = b[2], b[1].tree
+                elif b[0] == "local" and isinstance(b[1], (ast.FunctionDef, ast.AsyncFunctionDef)):
+                    defs = [n for n in ast.walk(b[1]) if isinstance(n, ast.Assign) and any(isinstance(t, ast.Name) and t.id == obj.id for t in n.targets)]
+                    if len(defs) == 1:
+                        obj, scope = defs[0].value, b[1]
+            if isinstance(obj, ast.Call) and isinstance(obj.func, (ast.Name, ast.Attribute)) and prog.ext_name(obj.func, obj) == "textwrap.TextWrapper":
+                kw = _keywords_of(prog, obj)
+                if scope is not None and nm is not None:
+                    for st in ast.walk(scope):
+                        if isinstance(st, ast.Assign) and len(st.targets) == 1 and isinstance(st.targets[0], ast.Attribute) and isinstance(st.targets[0].value, ast.Name) \
+                                and st.targets[0].value.id == nm:
+                            kw[st.targets[0].attr] = st.value
+                return [("textwrap.%s" % e.attr, kw, None)]
+        return []
     if isinstance(e, ast.Name):
         b = prog.lookup(e.id, at)
         if b[0] == "ext":
@@ -846,7 +869,7 @@ def _slot_of(node):
     return "params"
 
 
-def style_path_tag(prog, start, f, node=None):
+def style_path_tag(prog, start, f, node=None, consts=False):
     """A spelling-free tag of the docstring-style path on which function f (and, inside it, `node`) runs when entered from
     `start`: from the enum-like comparisons (`style is Style.rest`) guarding the references along a call chain start -> ... -> f
     and guarding `node` inside f: 'rest', 'not-rest', ... or 'any'."""
@@ -855,6 +878,11 @@ def style_path_tag(prog, start, f, node=None):
             if isinstance(t, ast.Compare) and len(t.ops) == 1 and isinstance(t.ops[0], (ast.Is, ast.Eq, ast.IsNot, ast.NotEq)) and isinstance(t.comparators[0], ast.Attribute):
                 neg = isinstance(t.ops[0], (ast.IsNot, ast.NotEq)) == pol
                 return "%s%s" % ("not-" if neg else "", t.comparators[0].attr)
+            if consts and isinstance(t, ast.Compare) and len(t.ops) == 1 and isinstance(t.ops[0], (ast.Is, ast.Eq, ast.IsNot, ast.NotEq)) \
+                    and isinstance(t.comparators[0], ast.Constant) and isinstance(t.comparators[0].value, str) and WORD_WRAP_FLAG not in names_in(t):
+                # the writers compare the style with its name (`style == "rest"`)
+                neg = isinstance(t.ops[0], (ast.IsNot, ast.NotEq)) == pol
+                return "%s%s" % ("not-" if neg else "", t.comparators[0].value)
         return None
 
     top = f
@@ -879,3 +907,143 @@ def style_path_tag(prog, start, f, node=None):
     if node is not None:
         gs = gs + list(expr_guards(node, stop=top.node))
     return tag_of(gs) or "any"
+
+
+# ---------------------------------------------------------------------------- REJOIN-COVER
+def rule_rejoin_cover(prog, rep, tier):
+    """REJOIN-COVER (C18, C03, C08): the function that re-joins the wrapped lines of a description is applied to an entry whatever
+    else the entry holds.  No application of it - direct, through partial or map - stands under a test of the entry's 'default'
+    (or 'typ') key: prose is wrapped whether or not there is a default, so an entry without one would keep its line breaks (and a
+    second pass would wrap the broken text again)."""
+    from sa.rules.hole import _dnf, _key_test
+    us = unwrap_sites(prog)
+    if not us:
+        raise AnalysisError("REJOIN-COVER: the reader's re-join of wrapped lines was not found")
+    rejoiners = []
+    for fi, cond, branch, code in us:
+        top = fi
+        while top.parent_fn is not None:
+            top = top.parent_fn
+        if top not in rejoiners:
+            rejoiners.append(top)
+    n = 0
+    for f in prog.all_functions():
+        if f in rejoiners or f.parent_fn is not None and f.parent_fn in rejoiners:
+            continue
+        for x in ast.walk(f.node):
+            if not (isinstance(x, ast.Name) and isinstance(x.ctx, ast.Load)):
+                continue
+            if enclosing_fn(x) is not f:
+                continue
+            tg = [t for t in prog.resolve_expr_fn(x, x) if isinstance(t, FunctionInfo)]
+            if not tg or tg[0] not in rejoiners:
+                continue
+            n += 1
+            bad = None
+            for t, pol in expr_guards(x, stop=f.node):
+                for alt in _dnf(t, pol):
+                    for atom, p_ in alt:
+                        for key in ("default", "typ"):
+                            if _key_test(atom, key) is not None:
+                                bad = bad or (atom, key)
+            inst = "%s applies %s" % (prog.owner_name(f), tg[0].qualname)
+            if bad:
+                rep.violation(Finding(
+                    "REJOIN-COVER", prog.owner_name(f), "rejoin-only-with:%s" % bad[1],
+                    "%s is applied only under `%s`, a test of the entry's %r key: an entry without it keeps the line breaks the writer's word-wrap put into its "
+                    "description (the prose comes back changed, and the next emission wraps the broken text again)" % (tg[0].qualname, src(bad[0], 50), bad[1]), loc(prog, bad[0])))
+            else:
+                rep.holds("REJOIN-COVER", inst, loc(prog, x), "under no test of the entry's default / type")
+    if n == 0:
+        raise AnalysisError("REJOIN-COVER: no application of the re-joining function found")
+
+
+# ---------------------------------------------------------------------------- WRAP-NOT-TYPE
+def _value_parts(fn, e, depth=0, seen=None):
+    """the sub-expressions that contribute text to the value of e (not the tests that choose between them): format arguments,
+    joined / filtered / mapped elements, both arms of a conditional, what a local was assigned"""
+    seen = seen if seen is not None else set()
+    if e is None or depth > 12 or id(e) in seen:
+        return
+    seen.add(id(e))
+    yield e
+    if isinstance(e, ast.IfExp):
+        yield from _value_parts(fn, e.body, depth + 1, seen)
+        yield from _value_parts(fn, e.orelse, depth + 1, seen)
+    elif isinstance(e, ast.BoolOp):
+        for v in e.values:
+            yield from _value_parts(fn, v, depth + 1, seen)
+    elif isinstance(e, (ast.Tuple, ast.List, ast.Set)):
+        for v in e.elts:
+            yield from _value_parts(fn, v, depth + 1, seen)
+    elif isinstance(e, ast.Starred):
+        yield from _value_parts(fn, e.value, depth + 1, seen)
+    elif isinstance(e, ast.BinOp):
+        yield from _value_parts(fn, e.left, depth + 1, seen)
+        yield from _value_parts(fn, e.right, depth + 1, seen)
+    elif isinstance(e, ast.JoinedStr):
+        for v in e.values:
+            yield from _value_parts(fn, v.value if isinstance(v, ast.FormattedValue) else v, depth + 1, seen)
+    elif isinstance(e, (ast.GeneratorExp, ast.ListComp)):
+        yield from _value_parts(fn, e.elt, depth + 1, seen)
+    elif isinstance(e, ast.Call):
+        if isinstance(e.func, ast.Attribute):
+            yield from _value_parts(fn, e.func.value, depth + 1, seen)
+        first_is_fn = isinstance(e.func, ast.Name) and e.func.id in ("map", "filter")
+        for a in (e.args[1:] if first_is_fn else e.args):
+            yield from _value_parts(fn, a, depth + 1, seen)
+        for k in e.keywords:
+            yield from _value_parts(fn, k.value, depth + 1, seen)
+    elif isinstance(e, ast.Name) and fn is not None:
+        for st in ast.walk(fn.node):
+            if isinstance(st, ast.Assign) and any(isinstance(t, ast.Name) and t.id == e.id for t in st.targets):
+                yield from _value_parts(fn, st.value, depth + 1, seen)
+            elif isinstance(st, ast.Assign) and any(isinstance(t, ast.Tuple) and any(isinstance(x, ast.Name) and x.id == e.id for x in t.elts) for t in st.targets):
+                yield from _value_parts(fn, st.value, depth + 1, seen)
+
+
+def _is_typ_read(e):
+    if isinstance(e, ast.Subscript) and isinstance(e.slice, ast.Constant) and e.slice.value == "typ":
+        return True
+    return isinstance(e, ast.Call) and isinstance(e.func, ast.Attribute) and e.func.attr == "get" and bool(e.args) and isinstance(e.args[0], ast.Constant) and e.args[0].value == "typ"
+
+
+def rule_wrap_not_type(prog, rep, tier):
+    """WRAP-NOT-TYPE: a declared type is not prose.  `Union[int, str]`, `Literal['a b', 'c']`, `Dict[str, List[float]]` contain
+    blanks, and the reader takes the type from one line (or re-joins it with a blank where the writer had none): text that is
+    built from the entry's 'typ' never reaches a word-wrapper.  Decided per wrapping site of the entry writers and per element
+    of what is wrapped there."""
+    roots, entry_fns = entry_emitters(prog)
+    sites = [s_ for s_ in wrap_sites(prog) if enclosing_fn(s_[0]) is not None and any(enclosing_fn(s_[0]) is f or enclosing_fn(s_[0]).node is f.node for f in entry_fns)]
+    if len(sites) < 2:
+        raise AnalysisError("WRAP-NOT-TYPE: only %d wrapping call sites found in the functions that write one documented entry" % len(sites))
+    for node, fe, alts, text in sites:
+        fn = enclosing_fn(node)
+        where = prog.owner_name(fn)
+        if text is None:
+            continue
+        # the elements that are wrapped one by one (map over a tuple / filter), or the one text
+        elements = [text]
+        if isinstance(node.func, ast.Name) and node.func.id == "map":
+            t = text
+            while isinstance(t, ast.Call) and isinstance(t.func, ast.Name) and t.func.id in ("filter", "map", "list", "tuple", "iter") and len(t.args) >= 1:
+                t = t.args[-1]
+            if isinstance(t, (ast.Tuple, ast.List)):
+                elements = list(t.elts)
+        # the style the site serves: from the comparisons guarding it here and along the call chain from the entry writer
+        style = "any"
+        for r_ in roots:
+            tag = style_path_tag(prog, r_, fn, node, consts=True)
+            if tag != "any":
+                style = tag
+                break
+        for el in elements:
+            hit = next((p for p in _value_parts(fn, el) if _is_typ_read(p)), None)
+            inst = "%s: %s wraps %s" % (where, src(fe, 20), src(el, 40))
+            if hit is not None:
+                rep.violation(Finding(
+                    "WRAP-NOT-TYPE", where, "type-text-wrapped:%s" % style,
+                    "the text handed to the word-wrapper (%s) is built from the entry's type (%s): a type with blanks in it that is longer than what is left of the line is "
+                    "broken, and it is read back with the break (and the continuation indent) inside it, or not at all" % (src(el, 50), src(hit, 30)), loc(prog, hit)))
+            else:
+                rep.holds("WRAP-NOT-TYPE", inst, loc(prog, node), "no part of the wrapped text is read from the entry's type")
